@@ -115,7 +115,13 @@ def _prune_hash_dirs(keep):
         ds = [os.path.join(WORK, x) for x in os.listdir(WORK) if x.startswith("h-")]
     except FileNotFoundError:
         return
-    ds = [d for d in ds if os.path.isdir(d) and d != keep]
+    # developer convenience: directories named in .work/pinned_hashes (one per line) are never pruned, so that the
+    # cache of the unchanged tree survives a series of runs on seeded trees
+    try:
+        pinned = {x.strip() for x in open(os.path.join(WORK, "pinned_hashes")) if x.strip()}
+    except OSError:
+        pinned = set()
+    ds = [d for d in ds if os.path.isdir(d) and d != keep and os.path.basename(d) not in pinned]
     ds.sort(key=lambda d: os.path.getmtime(d), reverse=True)
     for d in ds[KEEP_HASH_DIRS - 1:]:
         shutil.rmtree(d, ignore_errors=True)
